@@ -3,7 +3,8 @@ import vlib
 from props import common, mix, sched
 
 THM = "NextestModel.Thm.C08"
-GEN = []
+GEN = ["tables"]
+GEN_GROUPS = ["weights"]
 CHECK_MODULES = ["NextestModel.Lemmas.Sched", "NextestModel.Model.Sched", "NextestModel.Model.Priority"]
 TRUSTED = ["model: Model/Sched, read from future-queue 0.4.0's source and corresponded against the real crate (third-party code: modelled and corresponded, not assumed)",
            "that an OS process does not outlive its future is C11's group-kill argument plus the end-to-end engine"]
